@@ -168,6 +168,17 @@ def audit_axioms(pid, spec):
     return res, out, rc == 0
 
 
+def anchor_files(pid):
+    """The source files a property is anchored in (properties.jsonl), plus files its spec adds."""
+    files = []
+    with open(os.path.join(ROOT, "properties.jsonl")) as f:
+        for line in f:
+            p = json.loads(line)
+            if p["id"] == pid:
+                files = list(p["anchors"]["files"])
+    return sorted(set(files + SPECS[pid].get("extra_anchor_files", [])))
+
+
 def proof_side(pid, spec, tier, log):
     """Returns dict(obligations=[...], failed=[(name, why)], model_ok=bool)."""
     obligations = list(spec["theorems"])
@@ -176,6 +187,15 @@ def proof_side(pid, spec, tier, log):
     log("extract_consts rc=%d" % rc)
     if rc != 0:
         failed.append(("tie:extract_consts", out.strip()[-400:]))
+    # machine-integer hazard inventory of the files the property is anchored in (tools/int_hazards.py)
+    try:
+        import int_hazards
+        files = anchor_files(pid)
+        for d in int_hazards.diff(files):
+            failed.append(("tie:int-hazards", d))
+        obligations.append("tie:int-hazards(%d anchored files)" % len(files))
+    except Exception as e:  # noqa: BLE001
+        failed.append(("tie:int-hazards", "inventory failed: %r" % (e,)))
     if tier == "thorough":
         # from-scratch rebuild of everything this property depends on
         run(["rm", "-rf", os.path.join(LEAN, ".lake", "build")])
@@ -597,8 +617,10 @@ def main(argv):
     failed_names = set()
     for n, _ in proof_failed:
         failed_names.add(n)
-    if any(n.startswith(("proof:", "model:", "tie:", "forbidden")) for n in failed_names):
+    if any(n.startswith(("proof:", "model:", "tie:extract", "forbidden")) for n in failed_names):
         discharged = 0
+    elif "tie:int-hazards" in failed_names:
+        discharged = n_obl - 1 - len([n for n in failed_names if n.split(":", 1)[-1] in ps["obligations"]])
     else:
         discharged = n_obl - len([n for n in failed_names if n.split(":", 1)[-1] in ps["obligations"]])
     ev = dict(
